@@ -93,11 +93,11 @@ def run(ctx):
             else:
                 q, moved = gp.permute_bodies(p, ctx.rng)
                 kind = "bodies"
+                if moved and crosses_recursive_call(p, q):
+                    ctx.count("body-permutation-across-recursive-call")
                 if moved and ctx.rng.random() < 0.5:
                     q = gp.permute_statements(q, ctx.rng)
                     kind = "bodies+statements"
-                if moved and crosses_recursive_call(p, q):
-                    ctx.count("body-permutation-across-recursive-call")
             variants.append((bi, kind, q))
     progs = [v[2] for v in variants]
     ctx.log("oracle on %d programs (%d base)" % (len(progs), len(base)))
